@@ -207,6 +207,8 @@ def _cond_ok(c, subject):
         return v is not None and re.search(c["regex"], v if isinstance(v, str) else json.dumps(v)) is not None
     if "exists" in c:
         return (v is not None) == c["exists"]
+    if "any" in c:
+        return isinstance(v, list) and any(all(_cond_ok(sc, el) for sc in c["any"]) for el in v)
     return False
 
 
@@ -215,9 +217,12 @@ def match_known(v, known):
     for k in known:
         if k.get("status") != "known":
             continue
-        if k["property"] != v.get("property"):
+        props = k["property"] if isinstance(k["property"], list) else [k["property"]]
+        if v.get("property") not in props:
             continue
         if "what" in k and k["what"] != v.get("what"):
+            continue
+        if "what_in" in k and v.get("what") not in k["what_in"]:
             continue
         if all(_cond_ok(c, v) for c in k.get("match", [])):
             return k
